@@ -179,7 +179,7 @@ func (w *c19World) fingerprint(after bool) string {
 	return fmt.Sprintf("%x", h.Sum(nil))
 }
 
-var c19Ops = []string{"kmac.ComputeHash", "bls.Sign", "bls.Verify", "BLSVerifyPOP", "SPOCKVerify", "VerifyOneMessage", "VerifyManyMessages", "BatchVerify", "ecdsa.Sign", "ecdsa.Verify", "BatchVerify-with-rejected-entries"}
+var c19Ops = []string{"kmac.ComputeHash", "bls.Sign", "bls.Verify", "BLSVerifyPOP", "SPOCKVerify", "VerifyOneMessage", "VerifyManyMessages", "BatchVerify", "ecdsa.Sign", "ecdsa.Verify", "BatchVerify-with-rejected-entries", "rejected-calls"}
 
 func (w *c19World) doOp(run *mon.Run, r *rand.Rand, op int, local [2]hash.Hasher) string {
 	mi := r.IntN(len(w.msgs))
@@ -273,6 +273,47 @@ func (w *c19World) doOp(run *mon.Run, r *rand.Rand, op int, local [2]hash.Hasher
 			want := w.b2Want[i]
 			if err != nil || ok != want {
 				return fmt.Sprintf("Verify of entry %d of the lists shared with concurrent batch verifications = (%v,%v), alone it returns %v", i, ok, err, want)
+			}
+		}
+	case 11:
+		// calls that are REJECTED for an input error, in between the others: what an error path leaves
+		// behind (a pooled scratch object returned twice, a half-filled buffer) must not reach the
+		// results of the calls other goroutines are making
+		ecPk := w.ecSks[0].PublicKey()
+		switch r.IntN(6) {
+		case 0:
+			pks := append(append([]crypto.PublicKey{}, w.pks...), ecPk)
+			sigs := append(toSigs(w.batchSigs), w.batchSigs[0])
+			res, err := crypto.BatchVerifyBLSSignaturesOneMessage(pks, sigs, w.msgs[0], w.xof)
+			if !crypto.IsNotBLSKeyError(err) {
+				return fmt.Sprintf("BatchVerify with an ECDSA key in the list returned (%v,%v)", res, err)
+			}
+			for _, v := range res {
+				if v {
+					return "BatchVerify returned a true entry together with an error"
+				}
+			}
+		case 1:
+			pks := append([]crypto.PublicKey{ecPk}, w.pks...)
+			if _, err := crypto.BatchVerifyBLSSignaturesOneMessage(pks, append(toSigs(w.batchSigs), w.batchSigs[0]), w.msgs[0], w.xof); !crypto.IsNotBLSKeyError(err) {
+				return fmt.Sprintf("BatchVerify with an ECDSA key first returned error %v", err)
+			}
+		case 2:
+			if _, err := crypto.BatchVerifyBLSSignaturesOneMessage(w.pks, toSigs(w.batchSigs)[:2], w.msgs[0], w.xof); !crypto.IsInvalidInputsError(err) {
+				return fmt.Sprintf("BatchVerify with mismatched lists returned error %v", err)
+			}
+		case 3:
+			if ok, err := crypto.VerifyBLSSignatureOneMessage(append(append([]crypto.PublicKey{}, w.pks...), ecPk), w.aggSig[mi], m, w.xof); ok || !crypto.IsNotBLSKeyError(err) {
+				return fmt.Sprintf("VerifyOneMessage with an ECDSA key returned (%v,%v)", ok, err)
+			}
+		case 4:
+			l := []crypto.Signature{w.sigs[0][mi], w.sigs[1][mi], w.sigs[2][mi][:47]}
+			if _, err := crypto.AggregateBLSSignatures(l); err == nil {
+				return "AggregateBLSSignatures accepted a short entry"
+			}
+		default:
+			if ok, err := w.pks[k].Verify(w.sigs[k][mi], m, nil); ok || !crypto.IsNilHasherError(err) {
+				return fmt.Sprintf("Verify with a nil hasher returned (%v,%v)", ok, err)
 			}
 		}
 	case 8:
